@@ -25,11 +25,23 @@ META = {
         "Histories stay within forests (no cycles) and query only existing frames; matrices are kept away from the documented 1e-8/1e-5 numeric shortcuts; numpy linear algebra trusted.",
         "DESIGN.md section 4 C09",
     ),
+    "C03": (
+        "exhaustive enumeration of integer tetrahedra/pillows on small grids (unisolvent for the degree<=3 moment polynomials) + hypothesis closed surfaces, exact rational oracle (fractions.Fraction signed tetrahedra)",
+        "Generated search against an exact-arithmetic oracle written from a different derivation (signed tetrahedra from the origin): every tetrahedron with vertex coordinates in {0,1}^12 and a seeded quarter of {0,1,2}^12 (quick) / all of {0,1,2,3}^12 = 16.7M (thorough) passed alone to triangles.mass_properties with integrals compared at 1 ulp; Hypothesis closed oriented surfaces of any genus, several bodies, overlapping shells, integer and float coordinates at scales 1e-6..1e6, random face order/rotation, densities, centre-of-mass overrides and rigid frames compared at 64 eps x a majorant of the summed terms. The grid enumeration is complete for the generating polynomial family; the step to all real inputs is an argument in DESIGN.md, not machine checked, so the level stays exploration.",
+        "python Fraction/int arithmetic trusted; override semantics as coded and documented (parallel-axis about the override); centre of mass only compared when the volume is well conditioned.",
+        "DESIGN.md section 4 C03",
+    ),
     "C04": (
         "hypothesis generators over geometry kind x matrix class x cached state x entry point; oracle = homogeneous multiply + metamorphic relations (inverse, composition, |det| volume, tensor law)",
         "Generated search: meshes (solid/open, colours, attributes, metadata, optional centre-of-mass override), point clouds, 2D/3D paths (lines, arcs under similarities), Box/Sphere/Cylinder/Capsule/Extrusion primitives, nested instanced scenes and voxel grids are transformed by matrices of every class (rigid, similarity, mirror, negative uniform scale, anisotropic, shear, general affine, near-identity either side of the 1e-8/1e-6 shortcuts) through apply_transform/apply_scale/apply_translation with derived values read before or not; every point must move to M.p, faces reverse iff det<0, nothing else changes, M then M^-1 restores, A then B equals B.A, and for solids volume/centre of mass/normals/area/inertia follow the stated laws. Exploration only.",
         "float64 matrix arithmetic trusted; tolerances derived from eps, |M|, |p| and the conditioning of the surface integrals; primitives may reject non-similarities with ValueError but must then be unchanged.",
         "DESIGN.md section 4 C04",
+    ),
+    "C05": (
+        "exhaustive enumeration of all face arrays with <=2 faces (quick) / <=3 faces (thorough) over 4 indices + hypothesis face soups and relabelled manifold pool, plain-python counting oracle",
+        "Generated search with a dictionary/Counter/union-find oracle written from the definitions: every face array with F<=2 over 4 vertex indices (all 64 triples per face: repeated indices, repeated faces, non-manifold fans) with V and V+1 vertices complete, a seeded 1/19 of F=3 (quick) or all 524,288 (thorough), Hypothesis soups F<=14 over V<=9, and closed/open/multi-body manifold templates under relabelling, face permutation, rotation, deletion and duplication; 20 cached properties read in a seeded order plus the free functions of trimesh.graph/geometry on both engines (scipy, networkx); angle-defect sum on closed manifolds. Exploration: the enumerated sub-domains are complete.",
+        "vertex positions are generic random so no geometric degeneracy interferes; a vertex may be its own neighbour only where a loop edge (v,v) exists (both readings of the docstring accepted).",
+        "DESIGN.md section 4 C05",
     ),
     "C06": (
         "hypothesis generators aimed at bit-packing limits + exhaustive enumeration of short sequences, dict/tuple grouping oracle",
